@@ -94,8 +94,9 @@ with ptrees_of (fuel : nat) (evs : list pevent) : option (list ptree * list peve
 Definition drop_ns (evs : list pevent) : list pevent :=
   filter (fun e => match e with PStartNs _ _ => false | _ => true end) evs.
 
-Definition attrs_read_b (ns : nsmap) (eats : list (XmlNs.qname * list atom)) (attrs : list (qname * str)) : bool :=
-  nodup_by str_eqb (map fst attrs)
+Definition attrs_read_b (ord : bool) (ns : nsmap) (eats : list (XmlNs.qname * list atom)) (attrs : list (qname * str)) : bool :=
+  (negb ord || list_eqb str_eqb (map fst attrs) (map (fun ea => clark_of (fst ea)) eats))
+  && nodup_by str_eqb (map fst attrs)
   && Nat.eqb (length attrs) (length eats)
   && forallb (fun ea =>
                 match snd ea with
@@ -109,11 +110,11 @@ Definition attrs_read_b (ns : nsmap) (eats : list (XmlNs.qname * list atom)) (at
                     end
                 end) eats.
 
-Fixpoint reads_t (e : XmlNs.enode) (t : ptree) {struct e} : bool :=
+Fixpoint reads_t (ord : bool) (e : XmlNs.enode) (t : ptree) {struct e} : bool :=
   match e, t with
   | EData _, _ => false
   | EElem q eats ekids, PT name attrs ns text tail kids =>
-      str_eqb (clark_of q) name && attrs_read_b ns eats attrs && blank_o tail
+      str_eqb (clark_of q) name && attrs_read_b ord ns eats attrs && blank_o tail
       && match ekids with
          | [] => match text, kids with None, [] => true | _, _ => false end
          | [EData [AQName qa]] =>
@@ -132,15 +133,15 @@ Fixpoint reads_t (e : XmlNs.enode) (t : ptree) {struct e} : bool :=
              && (fix go (es : list XmlNs.enode) (ts : list ptree) : bool :=
                    match es, ts with
                    | [], [] => true
-                   | e1 :: es', t1 :: ts' => reads_t e1 t1 && go es' ts'
+                   | e1 :: es', t1 :: ts' => reads_t ord e1 t1 && go es' ts'
                    | _, _ => false
                    end) ekids kids
          end
   end.
 
-Definition reads_b (e : XmlNs.enode) (pevs : list pevent) : bool :=
+Definition reads_b (ord : bool) (e : XmlNs.enode) (pevs : list pevent) : bool :=
   match ptree_of (S (length pevs)) (drop_ns pevs) with
-  | Some (t, []) => reads_t e t
+  | Some (t, []) => reads_t ord e t
   | _ => false
   end.
 
@@ -187,6 +188,13 @@ Definition uses_nillable_class (u : universe) : bool :=
 Definition uses_anytype (u : universe) (cl : cls) : bool :=
   existsb (fun k => match u_meta u k with
                     | Some m => existsb (fun e => existsb is_object (snd e)) (m_elements m)
+                    | None => false
+                    end) (reach u (reach_fuel u) [cl] []).
+
+(* coverage: a class with an attribute map (xs:anyAttribute) *)
+Definition uses_maps (u : universe) (cl : cls) : bool :=
+  existsb (fun k => match u_meta u k with
+                    | Some m => match m_any_attributes m with [] => false | _ => true end
                     | None => false
                     end) (reach u (reach_fuel u) [cl] []).
 
@@ -267,7 +275,7 @@ Definition expected_of (c : conv) (r : EventGen.gres (list wevent)) : option Xml
 Definition reads_real (k : rt_case) : bool :=
   negb (in_guard_q k)
   || match expected_of (rc_conv k) (rc_gen k) with
-     | Some e => reads_b e (rc_pevents k)
+     | Some e => reads_b (uses_maps (rc_universe k) (rc_cls k)) e (rc_pevents k)   (* a class with an attribute map: the order too *)
      | None => false
      end.
 
